@@ -57,7 +57,7 @@ Put(i, o) == [heap EXCEPT ![i] = o]
 \* Constructors
 \* ------------------------------------------------------------------------
 ANewMeasure(cls, d, R, s) ==
-    LET qL == Pick(IF cls = "DiagMeasure" THEN DPD(d) ELSE SPD(d), R, s)
+    LET qL == Pick(IF cls = "DiagMeasure" THEN DPDm(d, s) ELSE SPDm(d, s), R, s)
         qn == Pick(VEC(d), R, s)
         qb == Pick(LNB, R, s)
         o  == MkObj(cls, MkSeq(R, LAMBDA i : QM(qL[i])), MkSeq(R, LAMBDA i : QV(qn[i])),
@@ -67,7 +67,7 @@ ANewMeasure(cls, d, R, s) ==
                  NextId, ExpectObj(o), 0, NoObj, NoObj))
 
 ANewPdf(cls, mode, d, R, s) ==
-    LET qS == Pick(IF cls = "DiagPDF" THEN DPD(d) ELSE SPD(d), R, s + 1)
+    LET qS == Pick(IF cls = "DiagPDF" THEN DPDm(d, s) ELSE SPDm(d, s), R, s + 1)
         qm == Pick(VEC(d), R, s + 1)
         Sg == MkSeq(R, LAMBDA i : QM(qS[i]))
         ID == MkSeq(R, LAMBDA i : InvDet(Sg[i]))
@@ -103,7 +103,7 @@ ANewPdfInt(d, R, s) ==
                  NextId, ExpectObj(o), 0, NoObj, NoObj))
 
 ANewFactor(cls, d, R, s) ==
-    LET qL == Pick(SPD(d), R, s + 2)
+    LET qL == Pick(SPDm(d, s), R, s + 2)
         qn == Pick(VEC(d), R, s + 1)
         qb == Pick(LNB, R, s + 1)
         qv == Pick(VEC2(d), R, s)
@@ -285,7 +285,7 @@ ANewCond(cls, mode, bmode, dy, dx, R, s, m0) ==
     LET isId == IsIdCond(cls)
         qM == Pick(MMenu(dy, dx), R, m0)
         qb == Pick(VEC2(dy), R, s)
-        qS == Pick(IF IsDiagCond(cls) THEN DPD(dy) ELSE SPD(dy), R, s)
+        qS == Pick(IF IsDiagCond(cls) THEN DPDm(dy, s) ELSE SPDm(dy, s), R, s)
         M  == MkSeq(R, LAMBDA i : IF isId THEN Eye(dy) ELSE QM(qM[i]))
         b  == MkSeq(R, LAMBDA i : IF isId \/ bmode = "none" THEN ZeroVec(dy) ELSE QV(qb[i]))
         Mat == MkSeq(R, LAMBDA i : QM(qS[i]))       \* Sigma (modes S, SLD) or Lambda (mode L)
